@@ -599,6 +599,29 @@ func mirrorBrokenHalf(c *Ctx, op string) {
 	if ents, _ := os.ReadDir(tmpDir); len(ents) > 0 {
 		c.PropFail("scan-creates-files", fmt.Sprintf("scan / mirror / unpack of a %s ware whose source broke off in mid-transfer left %d file(s) in $TMPDIR, e.g. %s", fmtName, len(ents), ents[0].Name()), op)
 	}
+	// the same for objects that arrive whole and are no archive: the first half of the ware, and junk
+	junk := filepath.Join(base, "junk")
+	os.MkdirAll(junk, 0755)
+	os.WriteFile(filepath.Join(junk, "cut"), ware[:len(ware)/2], 0644)
+	os.WriteFile(filepath.Join(junk, "noise"), b[:70000], 0644)
+	for _, name := range []string{"cut", "noise"} {
+		jsrc := api.WarehouseLocation("file://" + filepath.Join(junk, name))
+		safeCall(func() (api.WareID, error) {
+			return fn.scan(ctx, api.PackType(fmtName), uf, rio.Placement_Direct, jsrc, rio.Monitor{})
+		})
+		safeCall(func() (api.WareID, error) {
+			return fn.mirror(ctx, id, whAddr("ca", tgt), []api.WarehouseLocation{jsrc}, rio.Monitor{})
+		})
+		safeCall(func() (api.WareID, error) {
+			return fn.unpack(ctx, id, filepath.Join(base, "dst-"+name), uf, rio.Placement_Copy, []api.WarehouseLocation{jsrc}, rio.Monitor{})
+		})
+		if ents, _ := os.ReadDir(tmpDir); len(ents) > 0 {
+			c.PropFail("scan-creates-files", fmt.Sprintf("scan / mirror / unpack of an object that is no %s archive (%s) left %d file(s) in $TMPDIR, e.g. %s", fmtName, name, len(ents), ents[0].Name()), op)
+			for _, e := range ents {
+				os.Remove(filepath.Join(tmpDir, e.Name()))
+			}
+		}
+	}
 	c.Distinct(op)
 }
 
